@@ -1,5 +1,6 @@
-(* Tactic preparing the translator's sample goals of C13 for `sample_tac` (interval): unroll the
-   generated loops on a literal amplitude list, decide the `if a != 0` guards on literals, evaluate
+(* Tactic preparing the translator's sample goals of C13 for `sample_tac` (interval): run the
+   generated loops on a literal amplitude list one iteration at a time (deciding the `if a != 0`
+   guards on literals as they appear, so that the accumulator stays a plain expression), evaluate
    the degree of mode k and turn `INR <literal>` into a real literal. *)
 From Coq Require Import Reals Lra ZArith List.
 Import ListNotations.
@@ -22,16 +23,25 @@ Ltac eval_degrees :=
       let v := eval vm_compute in (fst (index_lm z)) in change (fst (index_lm z)) with v
   end.
 
+Ltac run_loops :=
+  repeat match goal with
+  | |- context [fold_modes ?f ?n (?x :: ?l) ?acc] =>
+      change (fold_modes f n (x :: l) acc) with (fold_modes f (S n) l (f n x acc));
+      unfold dist2d_step, curv2d_step, perim_approx2d_step, line2d_step, dist3d_step, curv3d_step,
+        dist3s_step, curv3s_step;
+      cbn [fst snd]; decide_guards; cbn [fst snd]
+  | |- context [fold_modes ?f ?n [] ?acc] =>
+      change (fold_modes f n [] acc) with acc
+  end.
+
 Ltac perturbed_prep :=
   unfold pos2d_0, pos2d_1, unit2d_0, unit2d_1, pos3d_0, pos3d_1, pos3d_2, unit3d_0, unit3d_1, unit3d_2,
     pos3s_0, pos3s_1, pos3s_2, unit3s_0, unit3s_1, unit3s_2;
   unfold dist2d, curv2d, vol2d, set_vol2d, perim_approx2d, line2d, surface2d,
     dist3d, curv3d, volapprox3d, dist3s, curv3s, volapprox3s, vol3d_integrand, vfr_scalar_3;
-  cbn [fold_modes sum_below];
-  unfold dist2d_step, curv2d_step, perim_approx2d_step, line2d_step, dist3d_step, curv3d_step,
-    dist3s_step, curv3s_step;
+  run_loops;
   cbn [fst snd map flat_amps flat_map app sum_list fold_right];
-  decide_guards;
+  cbn beta iota zeta;
   cbn [fst snd Z.of_nat Pos.of_succ_nat Pos.succ];
   eval_degrees;
   rewrite ?INR_IZR_INZ;
